@@ -161,9 +161,22 @@ def run_chunk(jobs, path, atomics):
                 finished_ok += done
                 if len(incidents) >= 10 and finished_ok == 0:
                     raise ToolError("the harness dies on every execution from the start: %s" % msg[-500:])
-                out_all.write(json.dumps({"e": "begin", "id": dead["id"], "x": -1}) + "\n")
-                out_all.write(json.dumps({"e": "crash", "kind": kind, "t": -1}) + "\n")
-                out_all.write(json.dumps({"e": "end", "id": dead["id"], "x": -1, "overrun": False}) + "\n")
+                out_all.write(json.dumps({"e": "begin", "id": dead["id"], "x": -1}, separators=(",", ":")) + "\n")
+                # what the abort handler of the harness managed to dump of the execution in flight (complete lines only)
+                partial = [l for l in lines[last_begin + 1:] if l.startswith("{") and l.endswith("}") and '"e":"begin"' not in l and '"e":"end"' not in l]
+                ok_partial = []
+                for l in partial:
+                    try:
+                        json.loads(l)
+                        ok_partial.append(l)
+                    except ValueError:
+                        break
+                if ok_partial:
+                    out_all.write("\n".join(ok_partial) + "\n")
+                out_all.write(json.dumps({"e": "crash", "kind": kind, "t": -1}, separators=(",", ":")) + "\n")
+                out_all.write(json.dumps({"e": "end", "id": dead["id"], "x": -1, "overrun": False,
+                                          "info": {"segments": 0, "reached": 0, "missed": 0, "first_missed": -1, "solo_max": 0}},
+                                         separators=(",", ":")) + "\n")
                 sched_all.write(json.dumps({"id": dead["id"], "x": -1, "sched": []}) + "\n")
                 todo = todo[done + 1:]
             else:
